@@ -8,7 +8,7 @@ import time
 from . import gen, run, plans
 from .run import ToolError, log
 
-VERIF = "/verif"
+VERIF = os.environ.get("VERIF_ROOT") or os.path.dirname(os.path.dirname(os.path.dirname(os.path.abspath(__file__))))
 
 
 def load_known():
